@@ -73,9 +73,14 @@ static inline cstl_emplace_result F_(_emplace)(MP_ *P, M_ *m, CSTL_K k, CSTL_V v
     CSTL_ASSERT(m->size + 1 <= m->reserved, "std.unordered_map.emplace: no rehash (size()+1 <= reserve(n)), stored iterators stay valid [C01 C08]");
 #endif
     cstl_iter n;
-#ifdef CSTL_CBMC
+#if defined(CSTL_CBMC) && !defined(CSTL_DETERMINISTIC)
     n = nondet_u64();
     CSTL_ASSUME(n < CSTL_NP && !P->alive[n]);
+#elif defined(CSTL_CBMC)
+    n = CSTL_NP;
+    for (cstl_iter i = 0; i < CSTL_NP; i++)
+        if (n == CSTL_NP && !P->alive[i]) n = i;
+    CSTL_ASSUME(n < CSTL_NP);
 #else
     for (n = 0; n < CSTL_NP; n++)
         if (!P->alive[n]) break;
